@@ -535,3 +535,52 @@ Definition hl_enc (s0 : hst) (ops : list hop) : list Z :=
       [1; exn_code x; b2z (hfly s)]%Z ++ qz (hnow s) ++ pos_enc (hx s, hy s, hz s)
       ++ [Z.of_nat (length pos)] ++ concat (map pos_enc (rev pos)) ++ concat (map hev_enc (rev (hlog s)))
   end.
+
+(* ================================================================== the link between send_packet and the air (round 5) *)
+(* The real drivers put the packet OBJECT into an out queue in send_packet and read its header and data later, in their
+   own thread.  Objects are cells of a store; `LSend c v` = the sender writes payload v into cell c and hands the
+   reference c to the link; `LTx` = the radio takes the oldest queued reference and transmits what the cell holds NOW.
+   An action list is an arbitrary transmit-delay schedule (any number of sends may be pending at any time). *)
+Section Link.
+  Variable A : Type.
+
+  Inductive lact := LSend (c : nat) (v : A) | LTx.
+
+  Record lst := mkL { l_store : nat -> option A; l_queue : list nat; l_air : list (option A) }.  (* l_air oldest first *)
+
+  Definition l_upd (f : nat -> option A) (c : nat) (v : A) : nat -> option A :=
+    fun c' => if Nat.eqb c' c then Some v else f c'.
+
+  Definition lstep (s : lst) (a : lact) : lst :=
+    match a with
+    | LSend c v => mkL (l_upd (l_store s) c v) (l_queue s ++ [c]) (l_air s)
+    | LTx => match l_queue s with
+             | [] => s
+             | c :: q => mkL (l_store s) q (l_air s ++ [l_store s c])
+             end
+    end.
+
+  Definition lrun (acts : list lact) (s : lst) : lst := fold_left lstep acts s.
+
+  (* the radio catches up: everything still queued is transmitted *)
+  Definition ldrain (s : lst) : list (option A) := l_air s ++ map (l_store s) (l_queue s).
+
+  Definition l_init : lst := mkL (fun _ => None) [] [].
+
+  Fixpoint commanded (acts : list lact) : list (option A) :=
+    match acts with
+    | [] => []
+    | LSend _ v :: r => Some v :: commanded r
+    | LTx :: r => commanded r
+    end.
+
+  Fixpoint cells (acts : list lact) : list nat :=
+    match acts with
+    | [] => []
+    | LSend c _ :: r => c :: cells r
+    | LTx :: r => cells r
+    end.
+End Link.
+Arguments LSend {A}. Arguments LTx {A}. Arguments lrun {A}. Arguments ldrain {A}. Arguments l_init {A}.
+Arguments commanded {A}. Arguments cells {A}. Arguments lstep {A}. Arguments mkL {A}.
+Arguments l_store {A}. Arguments l_queue {A}. Arguments l_air {A}. Arguments l_upd {A}.
